@@ -2,7 +2,7 @@
    add_edge / get_valence / is_loopless against add_edge of Model/Machines.v. *)
 From Coq Require Import ZArith List Lia Bool Arith Permutation.
 Import ListNotations.
-From CF Require Import ZSum ListAux Defs Core Machines GraphLink MachinesLink PyDict ImpRep TranslatedImpCFGraph.
+From CF Require Import ZSum ListAux Defs Core Machines GraphLink MachinesLink PyDict ImpRep TranslatedImpCFDivisor ImpLinkArith TranslatedImpCFGraph.
 Open Scope Z_scope.
 
 (* ---- CFGraph.add_edge / get_valence / is_loopless ---- *)
@@ -104,3 +104,45 @@ Theorem add_edges_refines gg vtv tv s es : ginv s -> rep_gstate gg vtv tv s ->
   | PyExn (gg', vtv', tv') => snd (add_edges s es) = false /\ rep_gstate gg' vtv' tv' (fst (add_edges s es)) end.
 Proof. intros Hi HR. rewrite add_edges_unfold. pose proof (add_edges_loop es gg vtv tv s Hi HR) as H.
   destruct (fold_left add_edges_body es (PyOk (gg, vtv, tv))) as [[[a b] c]|[[a b] c]]; exact H. Qed.
+
+(* ---- the constructor CFGraph(vertices, edges), translated from the current source: one empty row and a zero valence per vertex (in whatever order the set is
+   iterated), then add_edges; the new object represents the model's add_edges from the edgeless graph on the same vertices, and the exception leaves behind what
+   add_edges had built (no object exists then; the state is what the half-built object held) ---- *)
+Lemma ginit_mult0 n v w : mult (adj (ginit n)) v w = 0.
+Proof. unfold ginit, mult. cbn [adj]. destruct (le_lt_dec n v). rewrite nth_overflow by (rewrite tab_length; lia). now destruct w.
+  rewrite (nth_tab n (fun _ => tab n (fun _ : nat => 0))) by auto. destruct (le_lt_dec n w); [apply nthZ_tab_out; auto|apply (nthZ_tab n (fun _ => 0)); auto]. Qed.
+Definition ginit_body (acc_ : pyres (list nat * dictD * dictZ * Z) (dictD * dictZ)) (vertex : nat) : pyres (list nat * dictD * dictZ * Z) (dictD * dictZ) :=
+  match acc_ with PyExn e_ => PyExn e_ | PyOk (self_graph, self_vertex_total_valence) =>
+  let self_graph := d_set vertex [] self_graph in
+  let self_vertex_total_valence := d_set vertex 0 self_vertex_total_valence in
+  PyOk (self_graph, self_vertex_total_valence) end.
+Lemma ginit_loop : forall L (a : dictD) (b : dictZ), fold_left ginit_body L (PyOk (a, b)) = PyOk (fold_left (fun d v => d_set v [] d) L a, fold_left (fun d v => d_set v 0 d) L b).
+Proof. induction L as [|x L IH]; intros a b; [reflexivity|]. cbn [fold_left]. unfold ginit_body at 2. cbn zeta. apply IH. Qed.
+Lemma graph_ctor_unfold so vs es : CFGraph___init__ so vs es =
+  if negb (nodupb vs) then PyExn ([], [], [], 0) else
+  match fold_left ginit_body (so vs) (PyOk ([], [])) with PyExn e_ => PyExn e_ | PyOk (gg, vtv) =>
+  if negb (match es with [] => true | _ :: _ => false end) then
+    match CFGraph_add_edges gg vtv 0 es with PyExn (gg', vtv', tv') => PyExn (vs, gg', vtv', tv') | PyOk (gg', vtv', tv') => PyOk (vs, gg', vtv', tv') end
+  else PyOk (vs, gg, vtv, 0) end.
+Proof. reflexivity. Qed.
+Lemma ginit_rep n vs so : rep_vset n vs -> NoDup vs -> (forall l, Permutation (so l) l) ->
+  rep_gstate (map (fun v => (v, ([] : dictZ))) (so vs)) (map (fun v => (v, 0)) (so vs)) 0 (ginit n).
+Proof. intros Hvs Hnd Hso. assert (Hsn : NoDup (so vs)) by (apply (Permutation_NoDup (Permutation_sym (Hso vs))); exact Hnd).
+  assert (Hn : nv (adj (ginit n)) = n) by (unfold ginit, nv; cbn [adj]; apply tab_length).
+  split; [|split; [|reflexivity]].
+  - intros v. rewrite Hn, d_find_const, (s_mem_perm v _ _ (Hso vs)), (Hvs v). destruct (Nat.ltb v n); [|reflexivity].
+    exists []. split; [reflexivity|]. split; [constructor|]. intros w. rewrite ginit_mult0. reflexivity.
+  - unfold gn. change (length (adj (ginit n))) with (nv (adj (ginit n))). rewrite Hn. change (valc (ginit n)) with (tab n (fun _ : nat => 0)). apply rep_div_intro.
+    + rewrite d_keys_const. exact Hsn.
+    + intros v. rewrite d_find_const, (s_mem_perm v _ _ (Hso vs)), (Hvs v). reflexivity. Qed.
+Theorem graph_ctor_refines n vs so es : rep_vset n vs -> NoDup vs -> (forall l, Permutation (so l) l) ->
+  match CFGraph___init__ so vs es with
+  | PyOk (vsf, gg, vtv, tv) => vsf = vs /\ snd (add_edges (ginit n) es) = true /\ rep_gstate gg vtv tv (fst (add_edges (ginit n) es))
+  | PyExn (vsf, gg, vtv, tv) => snd (add_edges (ginit n) es) = false /\ rep_gstate gg vtv tv (fst (add_edges (ginit n) es)) end.
+Proof. intros Hvs Hnd Hso. rewrite graph_ctor_unfold. assert (En : nodupb vs = true) by (apply nodupb_NoDup; exact Hnd). rewrite En. cbn [negb].
+  assert (Hsn : NoDup (so vs)) by (apply (Permutation_NoDup (Permutation_sym (Hso vs))); exact Hnd).
+  rewrite ginit_loop. rewrite !const_fold by (try exact Hsn; intros; reflexivity). cbn [app].
+  pose proof (ginit_rep n vs so Hvs Hnd Hso) as HR.
+  destruct es as [|e es]; cbn [negb]; [split; [reflexivity|]; split; [reflexivity|exact HR]|].
+  pose proof (add_edges_refines _ _ 0 (ginit n) (e :: es) (ginit_inv n) HR) as H.
+  destruct (CFGraph_add_edges _ _ 0 (e :: es)) as [[[a b] c]|[[a b] c]]; [split; [reflexivity|exact H]|exact H]. Qed.
